@@ -12,6 +12,7 @@ inductive Req
   | caret (v : Version) | tilde (v : Version) | exact (v : Version)
   | gte (v : Version) | gt (v : Version) | lte (v : Version) | lt (v : Version)
   | any | wildcardMajor (major : Nat) | wildcardMinor (major minor : Nat)
+  | anchored (r : Req) (a : Version)     -- `Partial { requirement, anchor }`: matches like `r`, is anchored at `a`
 deriving Repr, DecidableEq
 
 /-- `VersionRequirement::parse_wildcard` -/
@@ -26,9 +27,46 @@ def parseWildcard (spec : Text) : Option Req :=
     else none
   | _ => none
 
+/-- the lowest version that starts with `M.m`: its prereleases count too (`M.m.0-0`) -/
+def floorVer (M m : Nat) : Version := ⟨M, m, 0, ['0'], []⟩
+
+def succU64 (n : Nat) : Option Nat := if n + 1 ≤ u64Max then some (n + 1) else none     -- `checked_add(1)`
+
+/-- what an operator (none: caret) followed by a partial version (`M` or `M.m`) stands for -/
+def partialReq (op : String) (M : Nat) (m : Option Nat) : Option Req :=
+  match op, m with
+  | ">=", m => some (.gte (floorVer M (m.getD 0)))
+  | ">", none => (succU64 M).map fun M' => .gte (floorVer M' 0)
+  | ">", some m => (succU64 m).map fun m' => .gte (floorVer M m')
+  | "<=", none => (succU64 M).map fun M' => .lt (floorVer M' 0)
+  | "<=", some m => (succU64 m).map fun m' => .lt (floorVer M m')
+  | "<", m => some (.lt (floorVer M (m.getD 0)))
+  | "^", some m => if M > 0 then some (.caret (floorVer M m)) else some (.wildcardMinor M m)
+  | _, none => some (.wildcardMajor M)
+  | _, some m => some (.wildcardMinor M m)
+
+/-- `VersionRequirement::parse_partial`: an optional operator (`<=`, `>=`, `<`, `>`, `=`, `^`, `~`, tried in this order;
+    none means caret) followed by a partial version; `none` for a full version, a wildcard pattern or junk -/
+def parsePartial (spec : Text) : Option Req :=
+  let (op, rest0) : String × Text :=
+    match ["<=", ">=", "<", ">", "=", "^", "~"].findSome? fun op => (stripPrefix op.toList spec).map fun r => (op, r) with
+    | some x => x
+    | none => ("^", spec)
+  let rest := trim rest0
+  match splitChar '.' rest with
+  | [a] => match parseU64 a with | some M => (partialReq op M none).map (.anchored · ⟨M, 0, 0, [], []⟩) | none => none
+  | [a, b] =>
+    match parseU64 a with
+    | none => none
+    | some M => match parseU64 b with | some m => (partialReq op M (some m)).map (.anchored · ⟨M, m, 0, [], []⟩) | none => none
+  | _ => none
+
 /-- `VersionRequirement::parse` -/
 def parseReq (spec0 : Text) : Option Req :=
   let spec := trim spec0
+  match parsePartial spec with
+  | some r => some r
+  | none =>
   match stripPrefix ">=".toList spec with
   | some rest => (parseVersion (trim rest)).map .gte
   | none =>
@@ -84,12 +122,14 @@ def satisfiesReq (r : Req) (version : Version) : Bool :=
   | .any => true
   | .wildcardMajor m => version.major == m
   | .wildcardMinor m n => version.major == m && version.minor == n
+  | .anchored r _ => satisfiesReq r version
 
 def baseReq : Req → Option Version
   | .caret v | .tilde v | .exact v | .gte v | .gt v | .lte v | .lt v => some v
   | .any => none
   | .wildcardMajor m => some ⟨m, 0, 0, [], []⟩
   | .wildcardMinor m n => some ⟨m, n, 0, [], []⟩
+  | .anchored _ a => some a
 
 def satisfies (rs : List Req) (v : Version) : Bool := rs.all (satisfiesReq · v)
 
